@@ -87,9 +87,16 @@ Proof.
   intros Hij. replace j with (i + (j - i)) by lia. rewrite firstN_plus, sumd_app. lia.
 Qed.
 
-Lemma table_of_wf fl log : lenN log < 4294967295 -> wf_table (table_of fl log).
+Definition dsize_ok (e : logent) : Prop := let '(c, d, k) := e in d < 4294967296.
+Lemma sumd_bound' (log : list logent) : Forall dsize_ok log -> sumd log <= lenN log * 4294967295.
 Proof.
-  intros Hn. constructor; unfold table_of; cbn [t_entries t_len].
+  induction 1 as [|[[c d] k] r Hd _ IH]; cbn [sumd]; [rewrite lenN_eq; cbn [length]; lia|].
+  rewrite lenN_cons. unfold dsize_ok in Hd. lia.
+Qed.
+
+Lemma table_of_wf fl (log : list logent) : lenN log < 4294967295 -> Forall dsize_ok log -> wf_table (table_of fl log).
+Proof.
+  intros Hn Hok. constructor; unfold table_of; cbn [t_entries t_len].
   - apply lenN_cum.
   - assumption.
   - unfold ent. cbn [t_entries]. destruct (nthN_cum_d fl log 0 0 0) as [A _]; [lia|].
@@ -98,9 +105,527 @@ Proof.
     destruct (nthN_cum_d fl log 0 0 i) as [A _]; [lia|].
     destruct (nthN_cum_d fl log 0 0 j) as [B _]; [lia|].
     rewrite A, B. pose proof (sumd_firstN_mono log i j Hij). lia.
+  - unfold ent. cbn [t_entries]. destruct (nthN_cum_d fl log 0 0 (lenN log)) as [A _]; [lia|].
+    rewrite A, firstN_all by lia. pose proof (sumd_bound' log Hok). lia.
 Qed.
 
 Lemma table_of_ent_d fl log i : i <= lenN log -> e_d (ent (table_of fl log) i) = sumd (firstN log i).
 Proof. intros. unfold ent, table_of. cbn [t_entries]. destruct (nthN_cum_d fl log 0 0 i) as [A _]; [lia|]. rewrite A. lia. Qed.
 Lemma table_of_ent_c fl log i : i <= lenN log -> e_c (ent (table_of fl log) i) = sumc (firstN log i).
 Proof. intros. unfold ent, table_of. cbn [t_entries]. destruct (nthN_cum_d fl log 0 0 i) as [_ A]; [lia|]. rewrite A. lia. Qed.
+
+(* ------------------------------------------------------------------ the chunked entry loop *)
+Lemma entry_bytes_len fl e : lenN (entry_bytes fl e) = spe fl.
+Proof. destruct e as [[c d] k]. destruct fl; reflexivity. Qed.
+
+Lemma spe_bounds fl : 8 <= spe fl <= 12.
+Proof. destruct fl; cbn; lia. Qed.
+
+Lemma app_inv_len {A} (a b c d : list A) : lenN a = lenN c -> a ++ b = c ++ d -> a = c /\ b = d.
+Proof.
+  rewrite !lenN_eq. intros Hl H. apply Nat2N.inj in Hl.
+  revert c Hl H; induction a as [|x a IH]; intros [|y c] Hl H; cbn in *; try discriminate.
+  - auto.
+  - injection H as -> H. destruct (IH c) as [-> ->]; auto.
+Qed.
+
+Section Load.
+  Variable BUFF : N.
+  Hypothesis BUFF_lo : 17 <= BUFF.
+  Hypothesis BUFF_hi : BUFF + 12 < 4294967296.
+  Variable file : list N.
+
+  Record ld_inv (s : ldst) (R : list N) : Prop := {
+    li_cur : l_cur s = skipN (l_buf s) (l_pos s);
+    li_len : lenN (l_buf s) = BUFF;
+    li_pos : l_pos s <= BUFF;
+    li_rem : l_rem s < 4294967296;
+    li_file : l_fpos s + l_rem s <= lenN file;
+    li_str : exists a, a <= BUFF - l_pos s /\
+                       firstN (l_cur s) a ++ sliceN file (l_fpos s) (l_rem s) = R /\
+                       (0 < l_rem s -> l_pos s + a = BUFF)
+  }.
+
+  Lemma ld_refill_ok s R : ld_inv s R ->
+    exists s1, ld_refill BUFF file s = Ok s1 /\ ld_inv s1 R /\ l_pos s1 = 0 /\
+               l_c s1 = l_c s /\ l_d s1 = l_d s /\ l_idx s1 = l_idx s /\ l_ents s1 = l_ents s.
+  Proof.
+    intros [Hc Hl Hp Hr Hf (a & Ha & Hs & Hfull)].
+    unfold ld_refill.
+    destruct (N.ltb_spec BUFF (l_pos s)); [lia|].
+    rewrite (sub32_small BUFF (l_pos s)) by lia.
+    set (offset := BUFF - l_pos s).
+    rewrite (sub32_small BUFF offset) by (unfold offset; lia).
+    replace (BUFF - offset) with (l_pos s) by (unfold offset; lia).
+    set (toRead := N.min (l_rem s) (l_pos s)).
+    destruct (N.ltb_spec BUFF (l_pos s + offset)); [unfold offset in *; lia|].
+    destruct (N.ltb_spec BUFF (offset + toRead)); [unfold offset, toRead in *; lia|].
+    unfold src_read.
+    destruct (N.ltb_spec (lenN file) (l_fpos s + toRead)); [unfold toRead in *; lia|].
+    assert (Hlc : lenN (l_cur s) = offset) by (rewrite Hc, lenN_skipN, Hl; reflexivity).
+    assert (Hmoved : firstN (l_cur s) offset = l_cur s) by (apply firstN_all; lia).
+    rewrite Hmoved.
+    set (data := sliceN file (l_fpos s) toRead).
+    assert (Hld : lenN data = toRead) by (unfold data; rewrite lenN_sliceN; lia).
+    set (buf1 := buf_store (l_buf s) 0 (l_cur s)).
+    assert (Hb1 : buf1 = l_cur s ++ skipN (l_buf s) offset).
+    { unfold buf1. rewrite store_0 by lia. now rewrite Hlc. }
+    assert (Hb1l : lenN buf1 = BUFF).
+    { rewrite Hb1, lenN_app, lenN_skipN, Hlc, Hl. unfold offset. lia. }
+    set (buf2 := buf_store buf1 offset data).
+    assert (Hb2 : buf2 = l_cur s ++ data ++ skipN buf1 (offset + toRead)).
+    { unfold buf2, buf_store. rewrite Hld. f_equal. rewrite Hb1. rewrite <- Hlc. apply firstN_app_len. }
+    assert (Hb2l : lenN buf2 = BUFF).
+    { unfold buf2. rewrite lenN_store; [assumption|]. rewrite Hld, Hb1l. lia. }
+    eexists. split; [reflexivity|].
+    cbn [l_pos l_c l_d l_idx l_ents]. split; [|repeat split; reflexivity].
+    constructor; cbn [l_buf l_pos l_cur l_rem l_fpos].
+    - now rewrite skipN_0.
+    - assumption.
+    - lia.
+    - apply sub32_lt.
+    - rewrite sub32_small by (unfold toRead; lia). unfold toRead. lia.
+    - rewrite sub32_small by (unfold toRead; lia).
+      exists (a + toRead). split; [|split].
+      + unfold toRead, offset in *. lia.
+      + destruct (N.eq_dec (l_rem s) 0) as [E|E].
+        * assert (toRead = 0) by (unfold toRead; lia).
+          rewrite E in *. replace (a + toRead) with a by lia. replace (0 - toRead) with 0 by lia.
+          rewrite <- Hs. f_equal; [|now rewrite !sliceN_0].
+          rewrite Hb2, firstN_app_l by lia. reflexivity.
+        * assert (a = offset) by (unfold offset; specialize (Hfull ltac:(lia)); lia). subst a.
+          rewrite <- Hs. rewrite Hb2.
+          rewrite firstN_app_r by lia. rewrite Hlc, Hmoved.
+          replace (offset + toRead - offset) with toRead by lia.
+          assert (Hfd : forall X, firstN (data ++ X) toRead = data)
+            by (intros X; rewrite <- Hld; apply firstN_app_len).
+          rewrite Hfd.
+          rewrite <- app_assoc. f_equal. unfold data.
+          rewrite <- sliceN_plus. f_equal. unfold toRead. lia.
+      + intros Hpos. unfold toRead, offset in *. specialize (Hfull ltac:(lia)). lia.
+  Qed.
+
+  Lemma ld_step_ok s fl alloc c d k R :
+    ld_inv s (entry_bytes fl (c, d, k) ++ R) -> logent_ok (c, d, k) -> l_idx s < alloc ->
+    exists s1, ld_step BUFF file fl alloc s = Ok s1 /\ ld_inv s1 R /\
+               l_c s1 = w64 (l_c s + c) /\ l_d s1 = w64 (l_d s + d) /\ l_idx s1 = w32 (l_idx s + 1) /\
+               l_ents s1 = mkE (l_c s) (l_d s) (if fl then k else 0) :: l_ents s.
+  Proof.
+    intros Hinv (Hc32 & Hd32 & Hk32) Hidx.
+    pose proof (spe_bounds fl) as Hspe.
+    unfold ld_step.
+    assert (Hpre : exists s0, (if BUFF <? w32 (l_pos s + spe fl) then ld_refill BUFF file s else Ok s) = Ok s0 /\
+                              ld_inv s0 (entry_bytes fl (c, d, k) ++ R) /\ l_pos s0 + spe fl <= BUFF /\
+                              l_c s0 = l_c s /\ l_d s0 = l_d s /\ l_idx s0 = l_idx s /\ l_ents s0 = l_ents s).
+    { pose proof (li_pos s _ Hinv). rewrite w32_small by lia.
+      destruct (N.ltb_spec BUFF (l_pos s + spe fl)).
+      - destruct (ld_refill_ok s _ Hinv) as (s1 & E & I & P & Q). exists s1. rewrite P.
+        split; [exact E|split; [exact I|split; [lia|exact Q]]].
+      - exists s. split; [reflexivity|split; [exact Hinv|split; [lia|tauto]]]. }
+    destruct Hpre as (s0 & -> & Hinv0 & Hroom & Ec & Ed & Ei & Ee).
+    destruct Hinv0 as [Hc Hl Hp Hr Hf (a & Ha & Hs & Hfull)].
+    destruct (N.leb_spec alloc (l_idx s0)); [lia|].
+    destruct (N.ltb_spec BUFF (l_pos s0 + spe fl)); [lia|].
+    set (eb := entry_bytes fl (c, d, k)) in *.
+    assert (Hebl : lenN eb = spe fl) by apply entry_bytes_len.
+    assert (Hlc : lenN (l_cur s0) = BUFF - l_pos s0) by (rewrite Hc, lenN_skipN, Hl; reflexivity).
+    assert (HF : lenN (sliceN file (l_fpos s0) (l_rem s0)) = l_rem s0) by (rewrite lenN_sliceN; lia).
+    assert (Hfa : lenN (firstN (l_cur s0) a) = a) by (rewrite lenN_firstN; lia).
+    assert (Hage : spe fl <= a).
+    { destruct (N.eq_dec (l_rem s0) 0) as [E|E].
+      - apply (f_equal lenN) in Hs. rewrite !lenN_app, Hfa, HF, Hebl in Hs. lia.
+      - specialize (Hfull ltac:(lia)). lia. }
+    assert (Hsplit : firstN (l_cur s0) a = firstN (l_cur s0) (spe fl) ++ firstN (skipN (l_cur s0) (spe fl)) (a - spe fl)).
+    { rewrite <- firstN_plus. f_equal. lia. }
+    rewrite Hsplit, <- app_assoc in Hs.
+    apply app_inv_len in Hs; [|rewrite lenN_firstN, Hebl; lia].
+    destruct Hs as [Heb Hrest].
+    assert (Hcur : l_cur s0 = eb ++ skipN (l_cur s0) (spe fl)).
+    { rewrite <- Heb. symmetry. apply firstN_skipN. }
+    assert (Hrd : rd32 (l_cur s0) = c /\ rd32 (skipN (l_cur s0) 4) = d /\
+                  (if fl then rd32 (skipN (l_cur s0) 8) else 0) = (if fl then k else 0)).
+    { rewrite Hcur. unfold eb, entry_bytes. split; [|split].
+      - rewrite <- app_assoc. now apply rd32_le32_app.
+      - rewrite <- app_assoc. rewrite <- (le32_length c) at 1. rewrite skipN_app_len.
+        rewrite <- app_assoc. now apply rd32_le32_app.
+      - destruct fl; [|reflexivity].
+        rewrite <- !app_assoc.
+        replace 8 with (lenN (le32 c) + lenN (le32 d)) by reflexivity.
+        rewrite <- skipN_skipN, !skipN_app_len. now apply rd32_le32_app. }
+    destruct Hrd as (-> & -> & Hk).
+    eexists. split; [reflexivity|].
+    cbn [l_c l_d l_idx l_ents]. rewrite Ec, Ed, Ei, Ee.
+    split; [|repeat split; try reflexivity; now rewrite Hk].
+    constructor; cbn [l_buf l_pos l_cur l_rem l_fpos].
+    - rewrite w32_small by lia. rewrite Hc, skipN_skipN. reflexivity.
+    - assumption.
+    - rewrite w32_small by lia. lia.
+    - assumption.
+    - assumption.
+    - exists (a - spe fl). rewrite w32_small by lia. split; [lia|]. split; [assumption|].
+      intros Hpos. specialize (Hfull Hpos). lia.
+  Qed.
+End Load.
+
+(* ------------------------------------------------------------------ the whole loop, on well-formed entry bytes *)
+Fixpoint cumh (fl : bool) (log : list logent) (c d : N) : list seek_entry :=
+  match log with
+  | [] => []
+  | (cs, ds, k) :: r => mkE c d (if fl then k else 0) :: cumh fl r (c + cs) (d + ds)
+  end.
+
+Lemma cum_cumh fl log c d : cum fl log c d = cumh fl log c d ++ [mkE (c + sumc log) (d + sumd log) 0].
+Proof.
+  revert c d; induction log as [|[[cs ds] k] r IH]; intros c d; cbn [cum cumh sumc sumd app].
+  - now rewrite !N.add_0_r.
+  - rewrite IH. f_equal. f_equal. f_equal. f_equal; lia.
+Qed.
+
+Lemma sumc_bound log : Forall logent_ok log -> sumc log <= lenN log * 4294967295.
+Proof.
+  induction 1 as [|[[c d] k] r (Hc & Hd & Hk) _ IH]; cbn [sumc]; [rewrite lenN_eq; cbn [length]; lia|].
+  rewrite lenN_cons. lia.
+Qed.
+Lemma sumd_bound log : Forall logent_ok log -> sumd log <= lenN log * 4294967295.
+Proof.
+  induction 1 as [|[[c d] k] r (Hc & Hd & Hk) _ IH]; cbn [sumd]; [rewrite lenN_eq; cbn [length]; lia|].
+  rewrite lenN_cons. lia.
+Qed.
+
+Section Load2.
+  Variable BUFF : N.
+  Hypothesis BUFF_lo : 17 <= BUFF.
+  Hypothesis BUFF_hi : BUFF + 12 < 4294967296.
+  Variable file : list N.
+
+  Lemma ld_loop_ok fl alloc log : Forall logent_ok log ->
+    forall s R,
+      ld_inv BUFF file s (flat_map (entry_bytes fl) log ++ R) ->
+      l_idx s + lenN log <= alloc -> alloc < 4294967296 ->
+      l_c s + sumc log < 18446744073709551616 -> l_d s + sumd log < 18446744073709551616 ->
+      exists s1, ld_loop BUFF file fl alloc (length log) s = Ok s1 /\ ld_inv BUFF file s1 R /\
+                 l_c s1 = l_c s + sumc log /\ l_d s1 = l_d s + sumd log /\
+                 l_ents s1 = rev (cumh fl log (l_c s) (l_d s)) ++ l_ents s.
+  Proof.
+    induction 1 as [|[[c d] k] r Hok _ IH]; intros s R Hinv Hidx Hal Hc Hd.
+    - cbn [length ld_loop sumc sumd cumh rev app]. exists s. cbn [flat_map app] in Hinv.
+      split; [reflexivity|]. split; [assumption|]. repeat split; lia.
+    - rewrite lenN_cons in Hidx. cbn [sumc sumd] in Hc, Hd.
+      cbn [length ld_loop]. cbn [flat_map] in Hinv. rewrite <- app_assoc in Hinv.
+      destruct (ld_step_ok BUFF BUFF_lo BUFF_hi file s fl alloc c d k _ Hinv Hok) as (s1 & E & I1 & Ec & Ed & Ei & Ee); [lia|].
+      rewrite E. rewrite w64_small in Ec, Ed by lia. rewrite w32_small in Ei by lia.
+      destruct (IH s1 R I1) as (s2 & E2 & I2 & Ec2 & Ed2 & Ee2); try lia.
+      exists s2. split; [assumption|]. split; [assumption|].
+      rewrite Ec2, Ed2, Ee2, Ec, Ed, Ee. cbn [sumc sumd cumh rev]. rewrite <- app_assoc. cbn [app].
+      repeat split; lia.
+  Qed.
+End Load2.
+
+(* ------------------------------------------------------------------ seektable_roundtrip *)
+Lemma skipN5 {A} (a0 a1 a2 a3 a4 : A) l : skipN (a0 :: a1 :: a2 :: a3 :: a4 :: l) 5 = l.
+Proof. change (skipN l 0 = l). apply skipN_0. Qed.
+Lemma skipN4 {A} (a0 a1 a2 a3 : A) l : skipN (a0 :: a1 :: a2 :: a3 :: l) 4 = l.
+Proof. change (skipN l 0 = l). apply skipN_0. Qed.
+Lemma skipN8 {A} (a0 a1 a2 a3 a4 a5 a6 a7 : A) l : skipN (a0 :: a1 :: a2 :: a3 :: a4 :: a5 :: a6 :: a7 :: l) 8 = l.
+Proof. change (skipN l 0 = l). apply skipN_0. Qed.
+Lemma nthN4 {A} (a0 a1 a2 a3 a4 : A) l d : nthN (a0 :: a1 :: a2 :: a3 :: a4 :: l) 4 d = a4.
+Proof. reflexivity. Qed.
+
+Lemma lenN_flat_entries fl log : lenN (flat_map (entry_bytes fl) log) = spe fl * lenN log.
+Proof.
+  induction log as [|e r IH]; cbn [flat_map]; [rewrite !lenN_eq; cbn [length]; lia|].
+  rewrite lenN_app, entry_bytes_len, lenN_cons, IH. lia.
+Qed.
+
+Lemma sliceN_app_skip {A} (pre X : list A) a n : sliceN (pre ++ X) (lenN pre + a) n = sliceN X a n.
+Proof. unfold sliceN. rewrite skipN_app_r by lia. f_equal. f_equal. lia. Qed.
+
+Definition cf_of (fl : bool) : N := if fl then 1 else 0.
+
+Section Roundtrip.
+  Variable BUFF : N.
+  Hypothesis Blo : 17 <= BUFF.
+  Hypothesis Bhi : BUFF + 12 < 4294967296.
+  Variable fl : bool.
+  Variable log : list logent.
+  Variable pre buf0 : list N.
+  Hypothesis Hb0 : lenN buf0 = BUFF.
+  Hypothesis Hn : lenN log <= MAXFRAMES.
+  Hypothesis Hok : Forall logent_ok log.
+
+  Let n := lenN log.
+  Let E := flat_map (entry_bytes fl) log.
+  Let sz := spe fl * n + 9.
+  Let Hd := le32 SKIPMAGIC ++ le32 sz.
+  Let F := le32 n ++ [sfd_of (cf_of fl)] ++ le32 MAGIC.
+  Let file := pre ++ Hd ++ E ++ F.
+  Let rest0 := skipN buf0 9.
+
+  Lemma rt_n : n <= 134217728. Proof. pose proof MAXFRAMES_le. unfold n. lia. Qed.
+  Lemma rt_p : spe fl * n <= 1610612736. Proof. pose proof rt_n. destruct fl; cbn [spe]; lia. Qed.
+  Lemma rt_E : lenN E = spe fl * n. Proof. apply lenN_flat_entries. Qed.
+  Lemma rt_Hd : lenN Hd = 8. Proof. reflexivity. Qed.
+  Lemma rt_F : lenN F = 9. Proof. reflexivity. Qed.
+  Lemma rt_file : lenN file = lenN pre + 8 + spe fl * n + 9.
+  Proof. unfold file. rewrite !lenN_app, rt_Hd, rt_E, rt_F. lia. Qed.
+
+  Lemma rt_bytes : seek_table_bytes (cf_of fl) log = Hd ++ E ++ F.
+  Proof.
+    pose proof rt_p. pose proof (spe_bounds fl).
+    assert (Hfs : flag_set (cf_of fl) = fl) by (destruct fl; reflexivity).
+    unfold seek_table_bytes, table_size. fold n. rewrite Hfs, SKIPHDR_eq, FOOTER_eq.
+    rewrite w64_small by lia. rewrite sub32_small by lia.
+    replace (8 + spe fl * n + 9 - 8) with sz by (unfold sz; lia).
+    unfold Hd, F, E. now rewrite <- !app_assoc.
+  Qed.
+
+  Lemma rt_footer : ld_footer BUFF file buf0 = Ok (F ++ rest0, fl, n).
+  Proof.
+    pose proof rt_p. pose proof rt_n. pose proof rt_file as Hfl.
+    unfold ld_footer. rewrite FOOTER_eq. unfold src_seek_end, src_read.
+    assert (H1 : (lenN file <? 9) = false) by (apply N.ltb_ge; lia). rewrite H1.
+    assert (H2 : (lenN file <? lenN file - 9 + 9) = false) by (apply N.ltb_ge; lia). rewrite H2.
+    assert (H3 : (BUFF <? 9) = false) by (apply N.ltb_ge; lia). rewrite H3.
+    cbv beta iota zeta.
+    assert (Hfoot : sliceN file (lenN file - 9) 9 = F).
+    { unfold file at 1. replace (lenN file - 9) with (lenN pre + (lenN Hd + (lenN E + 0))) by (rewrite rt_Hd, rt_E; lia).
+      rewrite !sliceN_app_skip. unfold sliceN. rewrite skipN_0. apply firstN_all. rewrite rt_F. lia. }
+    rewrite Hfoot. rewrite store_0 by (rewrite rt_F; lia). rewrite rt_F. fold rest0.
+    assert (Hsfd : sfd_of (cf_of fl) = if fl then 128 else 0) by (destruct fl; reflexivity).
+    assert (Hbuf : F ++ rest0 = (n mod 256) :: ((n / 256) mod 256) :: ((n / 65536) mod 256) :: ((n / 16777216) mod 256)
+                                :: sfd_of (cf_of fl) :: (le32 MAGIC ++ rest0)) by reflexivity.
+    assert (A1 : rd32 (skipN (F ++ rest0) 5) = MAGIC).
+    { rewrite Hbuf, skipN5. apply rd32_le32_app, MAGIC_lt. }
+    assert (A2 : nthN (F ++ rest0) 4 0 = if fl then 128 else 0).
+    { rewrite Hbuf, nthN4. exact Hsfd. }
+    assert (A3 : rd32 (F ++ rest0) = n).
+    { unfold F. rewrite <- app_assoc. apply rd32_le32_app. lia. }
+    rewrite A1, A2, A3, N.eqb_refl. cbn [negb].
+    assert (Hres : negb (((if fl then 128 else 0) / 4) mod 32 =? 0) = false) by (destruct fl; reflexivity).
+    rewrite Hres.
+    assert (Hflag : negb ((if fl then 128 else 0) / 128 =? 0) = fl) by (destruct fl; reflexivity).
+    rewrite Hflag. reflexivity.
+  Qed.
+
+  Let toRead := N.min (spe fl * n + 8) BUFF.
+  Let rest1 := skipN (F ++ rest0) toRead.
+  Let buf1 := (Hd ++ firstN E (toRead - 8)) ++ rest1.
+  Let s0 := mkL buf1 8 (skipN buf1 8) (spe fl * n + 8 - toRead) (lenN pre + toRead) 0 0 0 [].
+
+  Lemma rt_header : ld_header BUFF file (F ++ rest0) fl n = Ok s0.
+  Proof.
+    pose proof rt_p. pose proof rt_n. pose proof rt_file as Hfl. pose proof (spe_bounds fl).
+    unfold ld_header. rewrite FOOTER_eq, SKIPHDR_eq.
+    rewrite (w32_small (spe fl * n)) by lia.
+    rewrite (w32_small (spe fl * n + 9 + 8)) by lia.
+    rewrite (sub32_small (spe fl * n + 9 + 8) 9) by lia.
+    replace (spe fl * n + 9 + 8 - 9) with (spe fl * n + 8) by lia. fold toRead.
+    unfold src_seek_end, src_read.
+    assert (G1 : (lenN file <? spe fl * n + 9 + 8) = false) by (apply N.ltb_ge; lia). rewrite G1.
+    replace (lenN file - (spe fl * n + 9 + 8)) with (lenN pre) by lia.
+    assert (G2 : (lenN file <? lenN pre + toRead) = false) by (apply N.ltb_ge; unfold toRead; lia). rewrite G2.
+    cbv beta iota zeta.
+    assert (Htr : 8 <= toRead) by (unfold toRead; lia).
+    assert (Hdata : sliceN file (lenN pre) toRead = Hd ++ firstN E (toRead - 8)).
+    { unfold file. replace (lenN pre) with (lenN pre + 0) at 1 by lia. rewrite sliceN_app_skip.
+      unfold sliceN. rewrite skipN_0. rewrite app_assoc.
+      rewrite firstN_app_l by (rewrite lenN_app, rt_Hd, rt_E; unfold toRead; lia).
+      rewrite firstN_app_r by (rewrite rt_Hd; lia). now rewrite rt_Hd. }
+    rewrite Hdata.
+    assert (Hdl : lenN (Hd ++ firstN E (toRead - 8)) = toRead).
+    { rewrite lenN_app, rt_Hd, lenN_firstN, rt_E. unfold toRead. lia. }
+    assert (Hbl : lenN (F ++ rest0) = BUFF).
+    { rewrite lenN_app, rt_F. unfold rest0. rewrite lenN_skipN. lia. }
+    rewrite store_0 by (rewrite Hdl, Hbl; unfold toRead; lia). rewrite Hdl. fold rest1. fold buf1.
+    assert (Hb : buf1 = le32 SKIPMAGIC ++ le32 sz ++ firstN E (toRead - 8) ++ rest1).
+    { unfold buf1, Hd. now rewrite <- !app_assoc. }
+    assert (R1 : rd32 buf1 = SKIPMAGIC) by (rewrite Hb; apply rd32_le32_app, SKIPMAGIC_lt).
+    assert (R2 : rd32 (skipN buf1 4) = sz).
+    { rewrite Hb. rewrite <- (le32_length SKIPMAGIC) at 1. rewrite skipN_app_len. apply rd32_le32_app. unfold sz. lia. }
+    rewrite R1, R2, N.eqb_refl. cbv beta iota zeta. cbn [negb].
+    replace (w32 (sz + 8)) with (spe fl * n + 9 + 8) by (unfold sz; rewrite w32_small; lia).
+    rewrite N.eqb_refl. cbn [negb].
+    rewrite (sub32_small (spe fl * n + 8) toRead) by (unfold toRead; lia).
+    reflexivity.
+  Qed.
+
+  Lemma rt_inv0 : ld_inv BUFF file s0 (E ++ []).
+  Proof.
+    pose proof rt_p. pose proof rt_n. pose proof rt_file as Hfl. pose proof (spe_bounds fl).
+    assert (Htr : 8 <= toRead) by (unfold toRead; lia).
+    assert (Hbl : lenN (F ++ rest0) = BUFF).
+    { rewrite lenN_app, rt_F. unfold rest0. rewrite lenN_skipN. lia. }
+    assert (Hb1l : lenN buf1 = BUFF).
+    { unfold buf1. rewrite !lenN_app, rt_Hd, lenN_firstN, rt_E. unfold rest1. rewrite lenN_skipN, Hbl. unfold toRead. lia. }
+    assert (Hskip8 : skipN buf1 8 = firstN E (toRead - 8) ++ rest1).
+    { unfold buf1. rewrite <- app_assoc. rewrite <- rt_Hd. apply skipN_app_len. }
+    constructor; cbn [l_buf l_pos l_cur l_rem l_fpos s0].
+    - reflexivity.
+    - assumption.
+    - lia.
+    - unfold toRead. lia.
+    - unfold toRead. lia.
+    - exists (toRead - 8). split; [unfold toRead; lia|]. split.
+      + rewrite Hskip8. rewrite firstN_app_l by (rewrite lenN_firstN, rt_E; unfold toRead; lia).
+        rewrite firstN_firstN. replace (N.min (toRead - 8) (toRead - 8)) with (toRead - 8) by lia.
+        rewrite app_nil_r.
+        unfold file. rewrite sliceN_app_skip.
+        replace toRead with (lenN Hd + (toRead - 8)) at 2 by (rewrite rt_Hd; lia).
+        rewrite sliceN_app_skip.
+        unfold sliceN. rewrite skipN_app_l by (rewrite rt_E; unfold toRead; lia).
+        replace (spe fl * n + 8 - toRead) with (lenN (skipN E (toRead - 8))) by (rewrite lenN_skipN, rt_E; unfold toRead; lia).
+        rewrite firstN_app_len. apply firstN_skipN.
+      + unfold toRead. lia.
+  Qed.
+
+  Lemma seektable_roundtrip_gen : load_seek_table BUFF (pre ++ seek_table_bytes (cf_of fl) log) buf0 = Ok (table_of fl log).
+  Proof.
+    pose proof rt_p. pose proof rt_n.
+    rewrite rt_bytes. fold file. unfold load_seek_table.
+    rewrite rt_footer. cbn [rbind]. rewrite rt_header. cbn [rbind].
+    rewrite (w32_small (n + 1)) by lia.
+    destruct (ld_loop_ok BUFF Blo Bhi file fl (n + 1) log Hok s0 [] rt_inv0) as (s1 & E1 & I1 & Ec & Ed & Ee);
+      cbn [l_idx l_c l_d s0]; try (unfold n; lia).
+    { pose proof (sumc_bound log Hok). unfold n in *. lia. }
+    { pose proof (sumd_bound log Hok). unfold n in *. lia. }
+    assert (Hlenlog : N.to_nat n = length log) by (unfold n; rewrite lenN_eq; lia).
+    rewrite Hlenlog, E1. cbn [rbind].
+    assert (H3 : (n + 1 <=? n) = false) by (apply N.leb_gt; lia). rewrite H3.
+    f_equal. unfold table_of. fold n. f_equal.
+    rewrite revT_rev. cbn [rev]. rewrite Ee, Ec, Ed. cbn [l_ents l_c l_d s0].
+    rewrite app_nil_r, rev_involutive, !N.add_0_l. symmetry. apply cum_cumh.
+  Qed.
+End Roundtrip.
+
+(* ------------------------------------------------------------------ arbitrary bytes: no Trap, and a loaded table is well formed *)
+Fixpoint asc (l : list seek_entry) : Prop :=
+  match l with
+  | [] => True
+  | a :: r => (forall b, In b r -> e_d a <= e_d b) /\ asc r
+  end.
+
+Lemma asc_app_one l x : asc l -> (forall a, In a l -> e_d a <= e_d x) -> asc (l ++ [x]).
+Proof.
+  induction l as [|a r IH]; intros Ha Hx; cbn [app asc].
+  - split; [intros b []|exact I].
+  - destruct Ha as [Ha1 Ha2]. split.
+    + intros b Hb. apply in_app_or in Hb. destruct Hb as [Hb|[<-|[]]]; [now apply Ha1|apply Hx; now left].
+    + apply IH; [assumption|]. intros a' Ha'. apply Hx. now right.
+Qed.
+
+Lemma asc_nth l i j : asc l -> (i <= j)%nat -> (j < length l)%nat -> e_d (nth i l e0) <= e_d (nth j l e0).
+Proof.
+  revert i j; induction l as [|a r IH]; intros i j Ha Hij Hj; cbn [length] in Hj; [lia|].
+  destruct Ha as [Ha1 Ha2].
+  destruct i as [|i], j as [|j]; cbn [nth]; try lia.
+  - apply Ha1. apply nth_In. lia.
+  - apply IH; [assumption|lia|lia].
+Qed.
+
+Section Safe.
+  Variable BUFF : N.
+  Hypothesis BUFF_lo : 17 <= BUFF.
+  Hypothesis BUFF_hi : BUFF + 12 < 4294967296.
+  Variable file : list N.
+  Hypothesis file_ok : bytes_ok file.
+
+  Record ld_safe (s : ldst) : Prop := {
+    ls_cur : l_cur s = skipN (l_buf s) (l_pos s);
+    ls_len : lenN (l_buf s) = BUFF;
+    ls_pos : l_pos s <= BUFF;
+    ls_bytes : bytes_ok (l_buf s);
+    ls_idx : lenN (l_ents s) = l_idx s;
+    ls_dmax : l_d s <= l_idx s * 4294967295;
+    ls_asc : asc (rev (l_ents s));
+    ls_le : forall a, In a (l_ents s) -> e_d a <= l_d s;
+    ls_first : e_d (hd (mkE 0 (l_d s) 0) (rev (l_ents s))) = 0
+  }.
+
+  Lemma ld_refill_safe s : ld_safe s ->
+    match ld_refill BUFF file s with
+    | Ok s1 => ld_safe s1 /\ l_pos s1 = 0 /\ l_d s1 = l_d s /\ l_idx s1 = l_idx s /\ l_ents s1 = l_ents s /\ l_c s1 = l_c s
+    | Err _ => True
+    | Trap _ => False
+    end.
+  Proof.
+    intros [Hc Hl Hp Hb Hi Hdm Ha Hle Hf].
+    unfold ld_refill.
+    destruct (N.ltb_spec BUFF (l_pos s)); [lia|].
+    rewrite (sub32_small BUFF (l_pos s)) by lia.
+    set (offset := BUFF - l_pos s).
+    rewrite (sub32_small BUFF offset) by (unfold offset; lia).
+    set (toRead := N.min (l_rem s) (BUFF - offset)).
+    destruct (N.ltb_spec BUFF (l_pos s + offset)); [unfold offset in *; lia|].
+    destruct (N.ltb_spec BUFF (offset + toRead)); [unfold offset, toRead in *; lia|].
+    unfold src_read. destruct (N.ltb_spec (lenN file) (l_fpos s + toRead)); [exact I|].
+    assert (Hlc : lenN (l_cur s) = offset) by (rewrite Hc, lenN_skipN, Hl; reflexivity).
+    assert (Hld : lenN (sliceN file (l_fpos s) toRead) = toRead) by (rewrite lenN_sliceN; lia).
+    assert (Hm : lenN (firstN (l_cur s) offset) = offset) by (rewrite lenN_firstN; lia).
+    assert (Hb1l : lenN (buf_store (l_buf s) 0 (firstN (l_cur s) offset)) = BUFF).
+    { rewrite lenN_store; [assumption|]. rewrite Hm, Hl. unfold offset. lia. }
+    split; [|cbn [l_pos l_d l_idx l_ents l_c]; repeat split; reflexivity].
+    constructor; cbn [l_buf l_pos l_cur l_d l_idx l_ents]; try assumption.
+    - now rewrite skipN_0.
+    - rewrite lenN_store; [assumption|]. rewrite Hld, Hb1l. lia.
+    - lia.
+    - apply bytes_ok_store; [apply bytes_ok_store; [assumption|]|now apply bytes_ok_sliceN].
+      apply bytes_ok_firstN. rewrite Hc. now apply bytes_ok_skipN.
+  Qed.
+
+  Lemma rd32_cur_bound s k : ld_safe s -> rd32 (skipN (l_cur s) k) < 4294967296.
+  Proof.
+    intros S. apply rd32_bound. apply bytes_ok_skipN. rewrite (ls_cur s S). apply bytes_ok_skipN, (ls_bytes s S).
+  Qed.
+
+  Lemma ld_step_safe s fl alloc : ld_safe s -> alloc < 4294967296 ->
+    match ld_step BUFF file fl alloc s with
+    | Ok s1 => ld_safe s1 /\ l_idx s1 = l_idx s + 1 /\ l_idx s < alloc
+    | Err _ => True
+    | Trap _ => l_idx s >= alloc
+    end.
+  Proof.
+    intros S Hal. pose proof (spe_bounds fl) as Hspe. pose proof (ls_pos s S).
+    unfold ld_step. rewrite w32_small by lia.
+    assert (Hpre : match (if BUFF <? l_pos s + spe fl then ld_refill BUFF file s else Ok s) with
+                   | Ok s0 => ld_safe s0 /\ l_pos s0 + spe fl <= BUFF /\ l_d s0 = l_d s /\ l_idx s0 = l_idx s /\ l_ents s0 = l_ents s
+                   | Err _ => True | Trap _ => False end).
+    { destruct (N.ltb_spec BUFF (l_pos s + spe fl)).
+      - pose proof (ld_refill_safe s S) as R. destruct (ld_refill BUFF file s) as [s1|c|t]; [|exact I|exact R].
+        destruct R as (S1 & P & D & Ix & En & _). rewrite P.
+        split; [exact S1|split; [lia|split; [exact D|split; [exact Ix|exact En]]]].
+      - split; [exact S|split; [lia|split; [reflexivity|split; reflexivity]]]. }
+    destruct (if BUFF <? l_pos s + spe fl then ld_refill BUFF file s else Ok s) as [s0|c|t]; [|exact I|contradiction].
+    destruct Hpre as (S0 & Hroom & Ed & Ei & Ee).
+    destruct (N.leb_spec alloc (l_idx s0)); [lia|].
+    destruct (N.ltb_spec BUFF (l_pos s0 + spe fl)); [lia|].
+    pose proof (rd32_cur_bound s0 4 S0) as Hds.
+    destruct S0 as [Hc Hl Hp Hb Hi Hdm Ha Hle Hf].
+    cbn [l_idx]. rewrite (w32_small (l_idx s0 + 1)) by lia. rewrite (w32_small (l_pos s0 + spe fl)) by lia.
+    split; [|split; lia].
+    assert (Hnw : l_d s0 + rd32 (skipN (l_cur s0) 4) < 18446744073709551616) by nia.
+    constructor; cbn [l_buf l_pos l_cur l_d l_idx l_ents]; try assumption.
+    - rewrite Hc, skipN_skipN. reflexivity.
+    - rewrite lenN_cons. lia.
+    - rewrite w64_small by assumption. nia.
+    - cbn [rev]. apply asc_app_one; [assumption|]. intros a Ha'. apply in_rev in Ha'. cbn [e_d]. now apply Hle.
+    - rewrite w64_small by assumption. intros a [<-|Ha']; cbn [e_d]; [lia|]. specialize (Hle a Ha'). lia.
+    - cbn [rev]. destruct (rev (l_ents s0)) as [|x r] eqn:Er; cbn [app hd] in *; [cbn [e_d] in *; assumption|assumption].
+  Qed.
+
+  Lemma ld_loop_safe fl alloc fuel : alloc < 4294967296 -> forall s, ld_safe s -> l_idx s + N.of_nat fuel < alloc + 1 ->
+    match ld_loop BUFF file fl alloc fuel s with
+    | Ok s1 => ld_safe s1 /\ l_idx s1 = l_idx s + N.of_nat fuel
+    | Err _ => True
+    | Trap _ => False
+    end.
+  Proof.
+    intros Hal. induction fuel as [|f IH]; intros s S Hf; cbn [ld_loop].
+    - split; [assumption|]. cbn. lia.
+    - pose proof (ld_step_safe s fl alloc S Hal) as St.
+      destruct (ld_step BUFF file fl alloc s) as [s1|c|t]; [|exact I|lia].
+      destruct St as (S1 & Ei & _).
+      specialize (IH s1 S1 ltac:(lia)).
+      destruct (ld_loop BUFF file fl alloc f s1) as [s2|c|t]; [|exact I|assumption].
+      destruct IH as [S2 E2]. split; [assumption|]. lia.
+  Qed.
+End Safe.
